@@ -17,18 +17,8 @@ use std::sync::Arc;
 // ---------------------------------------------------------------------------------------------
 // bounds
 // ---------------------------------------------------------------------------------------------
-#[cfg(blv_small)]
-pub const NBYTES: usize = 2;
-#[cfg(blv_small)]
-pub const NENT: usize = 1;
-#[cfg(not(any(blv_deep, blv_small)))]
-pub const NBYTES: usize = 4;
-#[cfg(not(any(blv_deep, blv_small)))]
-pub const NENT: usize = 2;
-#[cfg(blv_deep)]
-pub const NBYTES: usize = 6;
-#[cfg(blv_deep)]
-pub const NENT: usize = 3;
+// NBYTES (symbolic file bytes) and NENT (entries per file) are written by the runner per tier
+include!("verif_bounds.rs");
 
 pub const MARKER: u8 = 0x7f;
 
@@ -916,9 +906,9 @@ fn generate_body(kill_window: bool)
         kani::cover!(cached.is_none() && G_MAX == u32::MAX - 2 && G_W == 1, "last usable id of the range handed out");
 
         assert!(fsm::OPS == 0, "model: drivers perform no file operation outside the passes");
+        kani::cover!(!kill_window || G_W > 0, "tokens on disk");
         if kill_window
         {
-            kani::cover!(G_W > 0, "tokens on disk");
             if use_cache && G_W > 0
             {
                 assert!(LOCK_AT_TOKENS_PRESENT && LOCK_AT_TOKENS_VALUE as u64 >= G_START + G_T,
